@@ -119,238 +119,248 @@ def _check_ir(g, ir, props, others, light, out):
     mine = {id(ir)}
     for lst in t.values():
         mine.update(id(x) for x in lst)
+    def part_on(*ps):
+        return props is None or any(p_ in props for p_ in ps)
+
     # ---------------------------------------------------------------- C04
-    for m in t["modules"]:
-        if m.ir is not ir:
-            bad("C04/clone:ends-disagree", "module.ir")
-        for x, attr in itertools.chain(
-                ((s, "module") for s in m.sections),
-                ((y, "module") for y in m.symbols),
-                ((p, "module") for p in m.proxies)):
-            if getattr(x, attr) is not m or x.ir is not ir:
-                bad("C04/clone:ends-disagree", type(x).__name__)
-    for s in t["sections"]:
-        for b in s.byte_intervals:
-            if b.section is not s or b.ir is not ir:
-                bad("C04/clone:ends-disagree", "interval")
-            for k in b.blocks:
-                if k.byte_interval is not b or k.ir is not ir \
-                        or k.section is not s or k.module is not s.module:
-                    bad("C04/clone:ends-disagree", "block")
-    for attr, want in (("sections", t["sections"]), ("symbols", t["symbols"]),
-                       ("proxy_blocks", t["proxies"]),
-                       ("byte_intervals", t["intervals"]),
-                       ("byte_blocks", t["blocks"]),
-                       ("code_blocks", [k for k in t["blocks"]
-                                        if isinstance(k, g.CodeBlock)]),
-                       ("data_blocks", [k for k in t["blocks"]
-                                        if isinstance(k, g.DataBlock)]),
-                       ("cfg_nodes", [k for k in t["blocks"]
-                                      if isinstance(k, g.CodeBlock)]
-                        + t["proxies"])):
-        if not same(getattr(ir, attr), want):
-            bad("C04/clone:derived-" + attr, "IR.%s differs from the tree"
-                % attr)
+    if part_on("C04"):
+        for m in t["modules"]:
+            if m.ir is not ir:
+                bad("C04/clone:ends-disagree", "module.ir")
+            for x, attr in itertools.chain(
+                    ((s, "module") for s in m.sections),
+                    ((y, "module") for y in m.symbols),
+                    ((p, "module") for p in m.proxies)):
+                if getattr(x, attr) is not m or x.ir is not ir:
+                    bad("C04/clone:ends-disagree", type(x).__name__)
+        for s in t["sections"]:
+            for b in s.byte_intervals:
+                if b.section is not s or b.ir is not ir:
+                    bad("C04/clone:ends-disagree", "interval")
+                for k in b.blocks:
+                    if k.byte_interval is not b or k.ir is not ir \
+                            or k.section is not s or k.module is not s.module:
+                        bad("C04/clone:ends-disagree", "block")
+        for attr, want in (("sections", t["sections"]), ("symbols", t["symbols"]),
+                           ("proxy_blocks", t["proxies"]),
+                           ("byte_intervals", t["intervals"]),
+                           ("byte_blocks", t["blocks"]),
+                           ("code_blocks", [k for k in t["blocks"]
+                                            if isinstance(k, g.CodeBlock)]),
+                           ("data_blocks", [k for k in t["blocks"]
+                                            if isinstance(k, g.DataBlock)]),
+                           ("cfg_nodes", [k for k in t["blocks"]
+                                          if isinstance(k, g.CodeBlock)]
+                            + t["proxies"])):
+            if not same(getattr(ir, attr), want):
+                bad("C04/clone:derived-" + attr, "IR.%s differs from the tree"
+                    % attr)
     # ---------------------------------------------------------------- C03
-    by_uuid = {}
-    for lst in t.values():
-        for x in lst:
-            by_uuid[x.uuid] = x
-    by_uuid[ir.uuid] = ir
-    for u, x in by_uuid.items():
-        r = ir.get_by_uuid(u)
-        if r is not x:
-            bad("C03/clone:%s" % ("missing-entry" if r is None else
-                                  "entry-is-another-object"),
-                "get_by_uuid(%s) is %s" % (u, "None" if r is None else (
-                    "a node of another IR" if id(r) not in mine
-                    else "another node")))
-    for o in others:
-        for lst in tree(o).values():
+    if part_on("C03"):
+        by_uuid = {}
+        for lst in t.values():
             for x in lst:
-                r = ir.get_by_uuid(x.uuid)
-                if r is x:
-                    bad("C03/clone:returns-node-of-another-ir", str(x.uuid))
+                by_uuid[x.uuid] = x
+        by_uuid[ir.uuid] = ir
+        for u, x in by_uuid.items():
+            r = ir.get_by_uuid(u)
+            if r is not x:
+                bad("C03/clone:%s" % ("missing-entry" if r is None else
+                                      "entry-is-another-object"),
+                    "get_by_uuid(%s) is %s" % (u, "None" if r is None else (
+                        "a node of another IR" if id(r) not in mine
+                        else "another node")))
+        for o in others:
+            for lst in tree(o).values():
+                for x in lst:
+                    r = ir.get_by_uuid(x.uuid)
+                    if r is x:
+                        bad("C03/clone:returns-node-of-another-ir", str(x.uuid))
     # ---------------------------------------------------------------- C19
-    for b in t["intervals"]:
-        if b.initialized_size != len(b.contents):
-            bad("C19/clone:initialized_size", "")
-        data = bytes(b.contents)
-        for k in b.blocks:
-            want_addr = None if b.address is None else b.address + k.offset
-            if k.address != want_addr:
-                bad("C19/clone:block-address",
-                    "block.address %r, interval address + offset %r"
-                    % (k.address, want_addr))
-            if bytes(k.contents) != data[k.offset:k.offset + k.size]:
-                bad("C19/clone:block-contents", "")
-            for off in (k.offset - 1, k.offset, k.offset + k.size - 1,
-                        k.offset + k.size):
-                inside = k.offset <= off < k.offset + k.size
-                if bool(k.contains_offset(off)) != inside:
-                    bad("C19/clone:contains_offset", "offset %d" % off)
-                if b.address is not None and bool(
-                        k.contains_address(b.address + off)) != inside:
-                    bad("C19/clone:contains_address", "offset %d" % off)
+    if part_on("C19"):
+        for b in t["intervals"]:
+            if b.initialized_size != len(b.contents):
+                bad("C19/clone:initialized_size", "")
+            data = bytes(b.contents)
+            for k in b.blocks:
+                want_addr = None if b.address is None else b.address + k.offset
+                if k.address != want_addr:
+                    bad("C19/clone:block-address",
+                        "block.address %r, interval address + offset %r"
+                        % (k.address, want_addr))
+                if bytes(k.contents) != data[k.offset:k.offset + k.size]:
+                    bad("C19/clone:block-contents", "")
+                for off in (k.offset - 1, k.offset, k.offset + k.size - 1,
+                            k.offset + k.size):
+                    inside = k.offset <= off < k.offset + k.size
+                    if bool(k.contains_offset(off)) != inside:
+                        bad("C19/clone:contains_offset", "offset %d" % off)
+                    if b.address is not None and bool(
+                            k.contains_address(b.address + off)) != inside:
+                        bad("C19/clone:contains_address", "offset %d" % off)
     if not in_extent(t):
         return
     # (the interval that LISTS the block, whatever the block's own
     # back-pointer says: C04 judges the back-pointer)
     owner = {id(k): b for b in t["intervals"] for k in b.blocks}
     # ---------------------------------------------------- C05 / C12 blocks
-    scopes = []
-    for b in t["intervals"]:
-        scopes.append((b, list(b.blocks), "ByteInterval"))
-    for s in t["sections"]:
-        scopes.append((s, [k for b in s.byte_intervals for k in b.blocks],
-                       "Section"))
-    for m in t["modules"]:
-        scopes.append((m, [k for s in m.sections for b in s.byte_intervals
-                           for k in b.blocks], "Module"))
-    scopes.append((ir, t["blocks"], "IR"))
-    pts = []
-    for k in t["blocks"]:
-        if owner[id(k)].address is not None:
-            a = owner[id(k)].address + k.offset
-            pts += [a, a + k.size]
-    qs = queries_for(pts, cap_b)
-    for scope, blocks, nm in scopes:
-        for q in qs:
-            r = qrange(q)
-            for pre, cls in (("byte", None), ("code", g.CodeBlock),
-                             ("data", g.DataBlock)):
-                pool = [k for k in blocks
-                        if (cls is None or isinstance(k, cls))
-                        and owner[id(k)].address is not None]
-                on = [k for k in pool if hit_on(
-                    r, owner[id(k)].address + k.offset, k.size)]
-                at = [k for k in pool
-                      if (owner[id(k)].address + k.offset) in r]
-                if not same(getattr(scope, pre + "_blocks_on")(q), on):
-                    bad("C05/clone:%s_blocks_on:%s" % (pre, nm),
-                        "query %r" % (q,))
-                if not same(getattr(scope, pre + "_blocks_at")(q), at):
-                    bad("C05/clone:%s_blocks_at:%s" % (pre, nm),
-                        "query %r" % (q,))
-    for b in t["intervals"]:
-        bl = list(b.blocks)
-        for q in queries_for([k.offset for k in bl]
-                             + [k.offset + k.size for k in bl], 8):
-            r = qrange(q)
-            if not same(b.byte_blocks_on_offset(q),
-                        [k for k in bl if hit_on(r, k.offset, k.size)]):
-                bad("C05/clone:byte_blocks_on_offset", "query %r" % (q,))
-            if not same(b.byte_blocks_at_offset(q),
-                        [k for k in bl if k.offset in r]):
-                bad("C05/clone:byte_blocks_at_offset", "query %r" % (q,))
+    if part_on("C05", "C12"):
+        scopes = []
+        for b in t["intervals"]:
+            scopes.append((b, list(b.blocks), "ByteInterval"))
+        for s in t["sections"]:
+            scopes.append((s, [k for b in s.byte_intervals for k in b.blocks],
+                           "Section"))
+        for m in t["modules"]:
+            scopes.append((m, [k for s in m.sections for b in s.byte_intervals
+                               for k in b.blocks], "Module"))
+        scopes.append((ir, t["blocks"], "IR"))
+        pts = []
+        for k in t["blocks"]:
+            if owner[id(k)].address is not None:
+                a = owner[id(k)].address + k.offset
+                pts += [a, a + k.size]
+        qs = queries_for(pts, cap_b)
+        for scope, blocks, nm in scopes:
+            for q in qs:
+                r = qrange(q)
+                for pre, cls in (("byte", None), ("code", g.CodeBlock),
+                                 ("data", g.DataBlock)):
+                    pool = [k for k in blocks
+                            if (cls is None or isinstance(k, cls))
+                            and owner[id(k)].address is not None]
+                    on = [k for k in pool if hit_on(
+                        r, owner[id(k)].address + k.offset, k.size)]
+                    at = [k for k in pool
+                          if (owner[id(k)].address + k.offset) in r]
+                    if not same(getattr(scope, pre + "_blocks_on")(q), on):
+                        bad("C05/clone:%s_blocks_on:%s" % (pre, nm),
+                            "query %r" % (q,))
+                    if not same(getattr(scope, pre + "_blocks_at")(q), at):
+                        bad("C05/clone:%s_blocks_at:%s" % (pre, nm),
+                            "query %r" % (q,))
+        for b in t["intervals"]:
+            bl = list(b.blocks)
+            for q in queries_for([k.offset for k in bl]
+                                 + [k.offset + k.size for k in bl], 8):
+                r = qrange(q)
+                if not same(b.byte_blocks_on_offset(q),
+                            [k for k in bl if hit_on(r, k.offset, k.size)]):
+                    bad("C05/clone:byte_blocks_on_offset", "query %r" % (q,))
+                if not same(b.byte_blocks_at_offset(q),
+                            [k for k in bl if k.offset in r]):
+                    bad("C05/clone:byte_blocks_at_offset", "query %r" % (q,))
     # -------------------------------------------------------- C06 intervals
-    pts = []
-    for b in t["intervals"]:
-        if b.address is not None:
-            pts += [b.address, b.address + b.size]
-    qs = queries_for(pts, cap_i)
-    iscopes = [(s, list(s.byte_intervals), "Section") for s in t["sections"]]
-    iscopes += [(m, [b for s in m.sections for b in s.byte_intervals],
-                 "Module") for m in t["modules"]]
-    iscopes.append((ir, t["intervals"], "IR"))
-    ext = {}
-    for s in t["sections"]:
-        ivs = list(s.byte_intervals)
-        if ivs and all(b.address is not None for b in ivs):
-            lo = min(b.address for b in ivs)
-            ext[id(s)] = (lo, max(b.address + b.size for b in ivs) - lo)
-        else:
-            ext[id(s)] = (None, None)
-        if (s.address, s.size) != ext[id(s)]:
-            bad("C06/clone:section-extent", "(%r, %r) expected %r"
-                % (s.address, s.size, ext[id(s)]))
-    for scope, ivs, nm in iscopes:
-        for q in qs:
-            r = qrange(q)
-            on = [b for b in ivs if b.address is not None
-                  and hit_on(r, b.address, b.size)]
-            at = [b for b in ivs if b.address is not None and b.address in r]
-            if not same(scope.byte_intervals_on(q), on):
-                bad("C06/clone:byte_intervals_on:" + nm, "query %r" % (q,))
-            if not same(scope.byte_intervals_at(q), at):
-                bad("C06/clone:byte_intervals_at:" + nm, "query %r" % (q,))
-    for scope, secs, nm in [(m, list(m.sections), "Module")
-                            for m in t["modules"]] + [
-                                (ir, t["sections"], "IR")]:
-        for q in qs:
-            r = qrange(q)
-            on = [s for s in secs if ext[id(s)][0] is not None
-                  and hit_on(r, *ext[id(s)])]
-            at = [s for s in secs if ext[id(s)][0] is not None
-                  and ext[id(s)][0] in r]
-            if not same(scope.sections_on(q), on):
-                bad("C06/clone:sections_on:" + nm, "query %r" % (q,))
-            if not same(scope.sections_at(q), at):
-                bad("C06/clone:sections_at:" + nm, "query %r" % (q,))
+    if part_on("C06"):
+        pts = []
+        for b in t["intervals"]:
+            if b.address is not None:
+                pts += [b.address, b.address + b.size]
+        qs = queries_for(pts, cap_i)
+        iscopes = [(s, list(s.byte_intervals), "Section") for s in t["sections"]]
+        iscopes += [(m, [b for s in m.sections for b in s.byte_intervals],
+                     "Module") for m in t["modules"]]
+        iscopes.append((ir, t["intervals"], "IR"))
+        ext = {}
+        for s in t["sections"]:
+            ivs = list(s.byte_intervals)
+            if ivs and all(b.address is not None for b in ivs):
+                lo = min(b.address for b in ivs)
+                ext[id(s)] = (lo, max(b.address + b.size for b in ivs) - lo)
+            else:
+                ext[id(s)] = (None, None)
+            if (s.address, s.size) != ext[id(s)]:
+                bad("C06/clone:section-extent", "(%r, %r) expected %r"
+                    % (s.address, s.size, ext[id(s)]))
+        for scope, ivs, nm in iscopes:
+            for q in qs:
+                r = qrange(q)
+                on = [b for b in ivs if b.address is not None
+                      and hit_on(r, b.address, b.size)]
+                at = [b for b in ivs if b.address is not None and b.address in r]
+                if not same(scope.byte_intervals_on(q), on):
+                    bad("C06/clone:byte_intervals_on:" + nm, "query %r" % (q,))
+                if not same(scope.byte_intervals_at(q), at):
+                    bad("C06/clone:byte_intervals_at:" + nm, "query %r" % (q,))
+        for scope, secs, nm in [(m, list(m.sections), "Module")
+                                for m in t["modules"]] + [
+                                    (ir, t["sections"], "IR")]:
+            for q in qs:
+                r = qrange(q)
+                on = [s for s in secs if ext[id(s)][0] is not None
+                      and hit_on(r, *ext[id(s)])]
+                at = [s for s in secs if ext[id(s)][0] is not None
+                      and ext[id(s)][0] in r]
+                if not same(scope.sections_on(q), on):
+                    bad("C06/clone:sections_on:" + nm, "query %r" % (q,))
+                if not same(scope.sections_at(q), at):
+                    bad("C06/clone:sections_at:" + nm, "query %r" % (q,))
     # ------------------------------------------------------ C13 expressions
-    escopes = [(b, [b], "ByteInterval") for b in t["intervals"]]
-    escopes += [(s, list(s.byte_intervals), "Section") for s in t["sections"]]
-    escopes += [(m, [b for s in m.sections for b in s.byte_intervals],
-                 "Module") for m in t["modules"]]
-    escopes.append((ir, t["intervals"], "IR"))
-    pts = []
-    for b in t["intervals"]:
-        if b.address is not None:
-            pts += [b.address + o for o in b.symbolic_expressions]
-    qs = queries_for(pts, cap_e)
-    for scope, ivs, nm in escopes:
-        for q in qs:
-            r = qrange(q)
-            want = []
-            for b in ivs:
-                if b.address is None:
-                    continue
-                for o, e in b.symbolic_expressions.items():
-                    if b.address + o in r:
-                        want.append((id(b), o, id(e)))
-            got = [(id(b), o, id(e))
-                   for b, o, e in scope.symbolic_expressions_at(q)]
-            if sorted(got) != sorted(want):
-                bad("C13/clone:symbolic_expressions_at:" + nm,
-                    "query %r: %d triples, fresh scan %d"
-                    % (q, len(got), len(want)))
+    if part_on("C13"):
+        escopes = [(b, [b], "ByteInterval") for b in t["intervals"]]
+        escopes += [(s, list(s.byte_intervals), "Section") for s in t["sections"]]
+        escopes += [(m, [b for s in m.sections for b in s.byte_intervals],
+                     "Module") for m in t["modules"]]
+        escopes.append((ir, t["intervals"], "IR"))
+        pts = []
+        for b in t["intervals"]:
+            if b.address is not None:
+                pts += [b.address + o for o in b.symbolic_expressions]
+        qs = queries_for(pts, cap_e)
+        for scope, ivs, nm in escopes:
+            for q in qs:
+                r = qrange(q)
+                want = []
+                for b in ivs:
+                    if b.address is None:
+                        continue
+                    for o, e in b.symbolic_expressions.items():
+                        if b.address + o in r:
+                            want.append((id(b), o, id(e)))
+                got = [(id(b), o, id(e))
+                       for b, o, e in scope.symbolic_expressions_at(q)]
+                if sorted(got) != sorted(want):
+                    bad("C13/clone:symbolic_expressions_at:" + nm,
+                        "query %r: %d triples, fresh scan %d"
+                        % (q, len(got), len(want)))
     # ----------------------------------------------------------- C10 symbols
-    for m in t["modules"]:
-        names = {}
-        refs = {}
-        for y in m.symbols:
-            names.setdefault(y.name, []).append(y)
-            if y.referent is not None:
-                refs.setdefault(id(y.referent), []).append(y)
-        for nm_ in list(names) + ["no such name"]:
-            if not same(m.symbols_named(nm_), names.get(nm_, [])):
-                bad("C10/clone:symbols_named", repr(nm_))
-        for x in itertools.chain(
-                m.proxies, (k for s in m.sections for b in s.byte_intervals
-                            for k in b.blocks)):
-            if not same(x.references, refs.get(id(x), [])):
-                bad("C10/clone:references", type(x).__name__)
+    if part_on("C10"):
+        for m in t["modules"]:
+            names = {}
+            refs = {}
+            for y in m.symbols:
+                names.setdefault(y.name, []).append(y)
+                if y.referent is not None:
+                    refs.setdefault(id(y.referent), []).append(y)
+            for nm_ in list(names) + ["no such name"]:
+                if not same(m.symbols_named(nm_), names.get(nm_, [])):
+                    bad("C10/clone:symbols_named", repr(nm_))
+            for x in itertools.chain(
+                    m.proxies, (k for s in m.sections for b in s.byte_intervals
+                                for k in b.blocks)):
+                if not same(x.references, refs.get(id(x), [])):
+                    bad("C10/clone:references", type(x).__name__)
     # --------------------------------------------------------------- C11 cfg
-    edges = list(ir.cfg)
-    if len(edges) != len(ir.cfg) or len(set(edges)) != len(edges):
-        bad("C11/clone:iteration", "")
-    nodes = {}
-    for e in edges:
-        nodes[id(e.source)] = e.source
-        nodes[id(e.target)] = e.target
-        if e not in ir.cfg:
-            bad("C11/clone:membership", "")
-    for nd in nodes.values():
-        if set(ir.cfg.out_edges(nd)) != {e for e in edges
-                                         if e.source is nd}:
-            bad("C11/clone:out_edges", "")
-        if set(ir.cfg.in_edges(nd)) != {e for e in edges if e.target is nd}:
-            bad("C11/clone:in_edges", "")
-        if id(nd) in mine:
-            if set(nd.outgoing_edges) != {e for e in edges
-                                          if e.source is nd}:
-                bad("C11/clone:outgoing_edges", "")
-            if set(nd.incoming_edges) != {e for e in edges
-                                          if e.target is nd}:
-                bad("C11/clone:incoming_edges", "")
-    return
+    if part_on("C11"):
+        edges = list(ir.cfg)
+        if len(edges) != len(ir.cfg) or len(set(edges)) != len(edges):
+            bad("C11/clone:iteration", "")
+        nodes = {}
+        for e in edges:
+            nodes[id(e.source)] = e.source
+            nodes[id(e.target)] = e.target
+            if e not in ir.cfg:
+                bad("C11/clone:membership", "")
+        for nd in nodes.values():
+            if set(ir.cfg.out_edges(nd)) != {e for e in edges
+                                             if e.source is nd}:
+                bad("C11/clone:out_edges", "")
+            if set(ir.cfg.in_edges(nd)) != {e for e in edges if e.target is nd}:
+                bad("C11/clone:in_edges", "")
+            if id(nd) in mine:
+                if set(nd.outgoing_edges) != {e for e in edges
+                                              if e.source is nd}:
+                    bad("C11/clone:outgoing_edges", "")
+                if set(nd.incoming_edges) != {e for e in edges
+                                              if e.target is nd}:
+                    bad("C11/clone:incoming_edges", "")
